@@ -1,4 +1,77 @@
-import TransportVerif.Model.Delay
+import TransportVerif.Link.Delay
+import TransportVerif.Proofs.Delay
+/-
+C14 — configured delays are lower bounds and never reorder, drop, duplicate or crash
+(the DelayFilter; the router's minimum delay is covered by correspondence only).
+The statements below are FIXED; only the proofs may change.
+-/
 namespace TV.Props.C14
-theorem placeholder : True := trivial
+open TV TV.Delay TV.DelayLink
+
+/-- the forwarding loop never panics and never blocks on an empty timer channel: for every delay
+    ≥ 0 (zero included), any number of senders and EVERY interleaving of queueing, notifying,
+    select evaluations and timer expiries -/
+theorem no_panic (s : Sys) (h : Reach s) : s.loop ≠ .panicked ∧ s.loop ≠ .stuck :=
+  (Proofs.Delay.TInv.reach h).loopOk
+
+/-- no datagram is handed downstream sooner than `delay` after it entered the filter -/
+theorem not_before_delay (delay : Int) (n : Nat) (ops : List Op) (hd : 0 ≤ delay) (id : Nat) (t : Int)
+    (h : (id, t) ∈ (run (Sys.init delay n) ops).forwarded) :
+    ∃ a, (id, a) ∈ arrivals (Sys.init delay n) ops ∧ a + delay ≤ t := by
+  have hD := (Proofs.Delay.DInv.init delay n).run ops (Proofs.Delay.TInv.init delay n hd)
+  have hdel : (run (Sys.init delay n) ops).delay = delay :=
+    Proofs.Delay.run_delay (Sys.init delay n) ops
+  obtain ⟨a, ha, hle⟩ := hD.f id t h
+  exact ⟨a, by simpa using ha, by rw [hdel] at hle; exact hle⟩
+
+/-- datagrams leave in arrival order, each exactly once, none lost: what was forwarded followed by
+    what is still queued is exactly what entered, in order -/
+theorem fifo_exactly_once (delay : Int) (n : Nat) (ops : List Op) :
+    (run (Sys.init delay n) ops).forwarded.map (·.1) ++ (run (Sys.init delay n) ops).queue.map (·.id) =
+      (arrivals (Sys.init delay n) ops).map (·.1) := by
+  have := Proofs.Delay.ids_run (Sys.init delay n) ops
+  simpa [Proofs.Delay.ids, Sys.init] using this
+
+/-- ORIGINAL STATEMENT (FALSE, kept verbatim as a `Prop`): progress: the timer is never dead — in
+    every reachable state it is armed (for at most a minute ahead) or an undelivered tick is pending.
+    The second conjunct fails for configured delays above one minute: `Reach` only demands
+    `0 ≤ delay`, and both arms `Reset` the timer to the head's deadline, which is up to `delay` ahead. -/
+def timer_never_dead_statement : Prop :=
+  ∀ (s : Sys) (_ : Reach s),
+    (s.armed = true ∨ s.tick.isSome = true) ∧ (s.armed = true → s.due ≤ s.now + minute)
+
+/-- counterexample: delay = 2 minutes, one sender queues, notifies, the loop takes the push arm and
+    resets the timer two minutes ahead -/
+theorem timer_never_dead_counterexample : ¬ timer_never_dead_statement := by
+  intro h
+  have hr : Reach (run (Sys.init (2 * minute) 1) [.send 0, .notify 0, .loop]) :=
+    ⟨2 * minute, 1, [.send 0, .notify 0, .loop], by decide, rfl⟩
+  exact absurd ((h _ hr).2 (by decide)) (by decide)
+
+/-- progress (closest true variant; no hypothesis added, the bound of the second conjunct is weakened
+    from `minute` to `max minute s.delay`): the timer is never dead — in every reachable state it is
+    armed (for at most a minute, or the configured delay if that is longer, ahead) or an undelivered
+    tick is pending — and a tick arriving after the head's deadline forwards the head -/
+theorem timer_never_dead (s : Sys) (h : Reach s) :
+    (s.armed = true ∨ s.tick.isSome = true) ∧ (s.armed = true → s.due ≤ s.now + max minute s.delay) :=
+  ⟨(Proofs.Delay.TInv.reach h).alive, (Proofs.Delay.TInv.reach h).dueLe⟩
+
+/-- the original statement holds verbatim under the added hypothesis `s.delay ≤ minute` -/
+theorem timer_never_dead_of_delay_le_minute (s : Sys) (h : Reach s) (hm : s.delay ≤ minute) :
+    (s.armed = true ∨ s.tick.isSome = true) ∧ (s.armed = true → s.due ≤ s.now + minute) := by
+  refine ⟨(timer_never_dead s h).1, fun ha => ?_⟩
+  have := (timer_never_dead s h).2 ha
+  omega
+
+theorem tick_forwards_due_head (s : Sys) (c : Chunk) (rest : List Chunk) (tnow : Int)
+    (hq : s.queue = c :: rest) (hdue : c.deadline < tnow) :
+    (s.tickArm tnow).forwarded = s.forwarded ++ [(c.id, s.now)] ∧ (s.tickArm tnow).queue = rest := by
+  unfold Sys.tickArm
+  simp only [hq, hdue, if_true]
+  cases rest <;> simp
+
+-- the pinned tree's crash schedule (queue, let the timer forward, then notify) on the repaired model
+example : (run (Sys.init 1000000 3) [.send 2, .advance 60000000000, .loop, .notify 2, .loop]).loop = .atSelect
+    ∧ (run (Sys.init 1000000 3) [.send 2, .advance 60000000000, .loop, .notify 2, .loop]).forwarded = [(2, 60000000000)] := by decide
+
 end TV.Props.C14
